@@ -56,8 +56,13 @@ def gen_plan(rng, tier, i, seed):
     elif scen == "repeat_insertions":
         L, step = rng.choice([(100, 5), (150, 5)])
         o.update(repeat_ins=True, gene_len=rng.choice([480, 600]))
+        if os.environ.get("ALDYSIM_C01_CLOSE_D"):
+            o.update(repeat_d=tuple(map(int, os.environ["ALDYSIM_C01_CLOSE_D"].split(","))))
     elif scen == "close_pair":
         o.update(close_pair=CLOSE[(i // len(SCENARIOS)) % len(CLOSE)])
+        if os.environ.get("ALDYSIM_C01_CLOSE_D"):  # survey of the distance at which cis indels are lost
+            a_, b_ = map(int, os.environ["ALDYSIM_C01_CLOSE_D"].split(","))
+            o.update(close_d=(a_, b_), close_pair=CLOSE[(i // len(SCENARIOS)) % 4])
     elif scen == "multiallelic_het":
         o.update(multiallelic=True, ambiguous=False, n_major=4)
     elif scen == "structural":
@@ -158,8 +163,9 @@ def _crosstalk(plan):
 
 
 def _close_context(plan):
-    """Planted variants in the three situations the known findings describe: (cis) two catalogued indels a few
-    bases apart on one planted haplotype, (same_site) an insertion whose anchor base carries a planted
+    """Planted variants in the three situations the known findings describe: (cis) two catalogued indels up to
+    30 bp apart on one planted haplotype (the finding additionally needs the realigner to have skipped them,
+    see signature()), (same_site) an insertion whose anchor base carries a planted
     substitution of the same haplotype, (trans) two planted indels of the same kind and length within 60 bp
     that are not carried by the same copies."""
     g = plan["world"]["genes"][0]
@@ -172,7 +178,7 @@ def _close_context(plan):
         ind = sorted(k for k in vs_ if V[k]["kind"] in ("ins", "del"))
         for a in ind:
             for b in ind:
-                if a < b and abs(V[a]["g"] - V[b]["g"]) <= 12 + max(len(V[a]["ref"]), len(V[b]["ref"])):
+                if a < b and abs(V[a]["g"] - V[b]["g"]) <= 30:
                     cis |= {a, b}
         for a in vs_:
             for b in vs_:
@@ -217,6 +223,11 @@ def judge(plan, outcome):
     shift = plan["world"]["hg38_shift"] if plan["build"] == "hg38" else 0
     idmuts = {tuple(W.expected_mutation(g["variants"][k], shift)) for k in ids}
     ccd = {k: [list(W.expected_mutation(g["variants"][x], shift)) for x in v] for k, v in cc.items() if v}
+
+    def with_skips(r):
+        # planted cis indels the realigner left without any count at all ([0, 0]: it skipped them)
+        sk = [m for m in ccd.get("cis_indels", []) if (r.get("realigned") or {}).get(f"{m[0]}:{m[1]}") == [0, 0]]
+        return dict(ccd, realigner_skipped=sk) if sk else ccd
     for i, r in enumerate(outcome["runs"]):
         env = {"solver": "plain" if i == 0 else f"adversary:{plan['advs'][i - 1]}", "units": units,
                "read_length": plan["world"]["reads"]["L"], "strand": g["strand"], "build": plan["build"]}
@@ -224,7 +235,7 @@ def judge(plan, outcome):
             # planted genotypes always have reads: an error is only acceptable if the structure stage
             # could not be evaluated (precondition unknown)
             if r["precondition"] is True:
-                vs.append(_v("planted sample ended in an error", error=r["error"], close_context=ccd,
+                vs.append(_v("planted sample ended in an error", error=r["error"], close_context=with_skips(r),
                              confined="could not phase any major solution" in (r["error"].get("msg") or ""), **env))
             continue
         if not r["precondition"]:
@@ -232,7 +243,7 @@ def judge(plan, outcome):
         if not r["planted_major_reported"]:
             vs.append(_v("planted combination of major star-alleles is not among the best solutions",
                          planted=r["planted_majors"], reported=r["reported_majors"],
-                         neighbouring_unplanted_indels=xt, close_context=ccd,
+                         neighbouring_unplanted_indels=xt, close_context=with_skips(r),
                          confined=bool(ids) and _confined_majors(g, r["planted_majors"], r["reported_majors"], ids),
                          **env))
         for k, s in enumerate(r["solutions"]):
@@ -241,7 +252,7 @@ def judge(plan, outcome):
                 vs.append(_v("a best solution's variants differ from the simulated haplotypes' variants",
                              solution=s["nice"], added=[list(x) for x in (got - want)][:4],
                              lost=[list(x) for x in (want - got)][:4], score=s["score"],
-                             neighbouring_unplanted_indels=xt, close_context=ccd,
+                             neighbouring_unplanted_indels=xt, close_context=with_skips(r),
                              confined=bool(ids) and all(x in idmuts for x in list(got - want) + list(want - got)),
                              **env))
                 break
@@ -264,7 +275,7 @@ def signature(v):
         # the deviation involves nothing but the variants of the situation (see _close_context, judge)
         if cc.get("same_site"):
             sig["kind"] = "substitution-on-insertion-anchor"
-        elif cc.get("cis_indels"):
+        elif cc.get("cis_indels") and cc.get("realigner_skipped"):
             sig["kind"] = "close-cis-indels"
         elif cc.get("trans_indels") and v["clause"] != "planted sample ended in an error":
             sig["kind"] = "planted-indel-crosstalk"
@@ -442,7 +453,8 @@ def run_segment(seg):
     structure, majors, variants, ok = _expected(gene, g, units, shift)
     out = {"error": rec["exc"], "precondition": None, "planted_majors": majors, "planted_variants": [list(v) for v in variants],
            "solutions": [], "reported_majors": [], "planted_major_reported": False,
-           "fired": {k: v for k, v in SIM.fired.items() if k != "jitter"}}
+           "fired": {k: v for k, v in SIM.fired.items() if k != "jitter"},
+           "realigned": (streams._state.get("realigned") or [{}])[-1]}
     # precondition: the planted structure is an optimal explanation of the region depths
     cn_calls = [c for c in SIM.stage_calls if c["stage"] == "estimate_cn" and c["ret"] is not None]
     if cn_calls and cn_calls[0]["ret"] and ok:
